@@ -172,6 +172,9 @@ MUTANTS = [
     ("c02-revert-exact-closure-3pt", "C02", "pylife/stress/rainflow/extension.pyx",
      "                  ((front_val > start_val and back_val <= start_val) or\n                   (front_val < start_val and back_val >= start_val))):\n",
      "                  fabs(back_val - front_val) >= fabs(front_val - start_val)):\n"),
+    ("c02-revert-exact-closure-fkm", "C02", "pylife/stress/rainflow/fkm.py",
+     "                    if (last0 > last1 and current <= last1) or (last0 < last1 and current >= last1):\n",
+     "                    if np.abs(current-last0) >= np.abs(last0-last1):\n"),
     ("c04-revert-multipoint-upcast", "C04", "pylife/stress/rainflow/fkm_nonlinear.py",
      "            samples = samples.astype(np.float64)\n", "            pass\n"),
     ("c05-revert-first-load-step", "C05", "pylife/stress/rainflow/fkm_nonlinear.py",
